@@ -903,7 +903,7 @@ static int vnadata_save_common(vnadata_t *vdp, FILE *fp, const char *filename,
 	 * Touchstone requires references to be real and positive.
 	 */
 	for (int i = 0; i < ports; ++i) {
-	    if (cimag(z0_vector[i]) != 0.0 || creal(z0_vector[i]) <= 0.0) {
+	    if (cimag(z0_vector[i]) != 0.0 || !(creal(z0_vector[i]) > 0.0)) {
 		_vnadata_error(vdip, VNAERR_USAGE, "%s: "
 			"references must be be real and positive in "
 			"Touchstone file type", function);
